@@ -65,6 +65,18 @@ def sweep_rules(prog, rep):
     pre = [norm(s) for s in fi.node.body if s.lineno < lp.lineno]
     oks = any(t in ("events = sorted(events, key=lambda e: e.timestamp)", "events = sorted(events)", "events.sort(key=lambda e: e.timestamp)") for t in pre)
     rep.check(okp and oks, "THRESHOLD", fi.short, "pairs", "consecutive elements of the list sorted by timestamp", f"pairs are not consecutive elements of the timestamp-sorted list (iter `{norm(lp.iter)}`, sorted: {oks})", fi.loc(lp))
+    # ... of ALL the input events: a zero-length event is a neighbour like any other (the gaps on either side of it are
+    # measured to it), so nothing may be dropped from the list before the sweep
+    pname = fi.params[0]
+    for s_ in [x for x in fi.node.body if x.lineno < lp.lineno and isinstance(x, ast.Assign) and len(x.targets) == 1 and norm(x.targets[0]) == pname]:
+        v = s_.value
+        drops = [n for n in ast.walk(v) if (isinstance(n, (ast.ListComp, ast.GeneratorExp)) and any(g_.ifs for g_ in n.generators)) or (isinstance(n, ast.Call) and norm(n.func) in ("filter", "itertools.filterfalse", "filterfalse", "itertools.takewhile", "takewhile", "itertools.dropwhile", "dropwhile")) or (isinstance(n, ast.Subscript) and isinstance(n.slice, ast.Slice))]
+        if drops:
+            rep.violation("THRESHOLD", fi.short, f"input filtered before the sweep: {norm(drops[0])[:50]}", f"`{norm(s_)[:90]}` drops events from the list before the pairs are formed: the neighbours of a dropped event (e.g. a zero-length one) are then paired with each other, their gap is the sum of the two gaps, and short gaps on either side of it are left open when that sum exceeds the pulsetime", fi.loc(s_))
+        else:
+            keeps = isinstance(v, ast.Call) and norm(v.func) in ("deepcopy", "copy.deepcopy", "sorted", "list", "copy.copy", "copy") and v.args and all(isinstance(n, (ast.Name, ast.Call, ast.Attribute, ast.Load, ast.keyword, ast.Lambda, ast.arguments, ast.arg, ast.Constant)) for n in ast.walk(v))
+            if not keeps:
+                rep.undecided("THRESHOLD", fi.short, f"re-binding of {pname} before the sweep", f"cannot see that `{norm(s_)[:80]}` keeps every input event", fi.loc(s_))
     if not okp:
         return
     e1, e2 = [norm(x) for x in lp.target.elts]
@@ -231,6 +243,8 @@ VARIANTS = [
     ("B gaps under a second left open", F, "        if not gap:\n            continue", "        if gap < timedelta(seconds=1):\n            continue", "THRESHOLD"),
     ("B second pass joins equal-data neighbours without a gap test", F, "    return events\n", "    joined = []\n    for e in events:\n        if joined and joined[-1].data == e.data:\n            joined[-1].duration = (e.timestamp + e.duration) - joined[-1].timestamp\n        else:\n            joined.append(e)\n    return joined\n", "POSITIVE"),
     ("B durations truncated to milliseconds by the Event setter", "aw_core/models.py", '            self["duration"] = duration\n', '            self["duration"] = timedelta(milliseconds=int(duration.total_seconds() * 1000))\n', "DURATION"),
+    ("B zero-length events dropped before the sweep", F, "    events = deepcopy(events)\n", "    events = deepcopy([e for e in events if e.duration > timedelta(0)])\n", "THRESHOLD"),
+    {"name": "B shallow copy through an imported alias, sorted in place", "edits": [(F, "from copy import deepcopy\n", "from copy import copy as _cp\n"), (F, "    events = deepcopy(events)\n    events = sorted(events, key=lambda e: e.timestamp)\n", "    events = _cp(events)\n    events.sort(key=lambda e: e.timestamp)\n")], "expect": "PURE"},
     ("OK empty input returns early", F, "    events = deepcopy(events)\n    events = sorted(", "    if not events:\n        return []\n    events = deepcopy(events)\n    events = sorted(", "ok"),
     ("OK comparison flipped", F, "if e1.duration >= e2.duration:", "if e2.duration <= e1.duration:", "ok"),
     ("OK temp inlined", F, "                    e2.duration = e2_end - e2.timestamp\n                    e1.duration = timedelta(0)", "                    e2.duration = e2_end - e1.timestamp\n                    e1.duration = timedelta(0)", "ok"),
